@@ -430,9 +430,17 @@ class Process(Event[V]):
         generator = self._generator
         interrupts = self._interrupts
         env = self.env
-        env.active_process = self
-        self.target = event = generator.send(None)  # type: Event
-        env.active_process = None
+        try:
+            env.active_process = self
+            self.target = event = generator.send(None)  # type: Event
+            env.active_process = None
+        except StopIteration as err:
+            # the generator ended before its first ``yield``
+            self.succeed(err.args[0] if err.args else None)
+            return
+        except BaseException as err:
+            self.fail(err)
+            return
         while True:
             event = await self._wait_interruptible(event, interrupts)
             try:
